@@ -83,6 +83,16 @@ def _gate_leaves_false(facts):
     grows = [(bb, t) for bb, t in gc.calls() if callee(t) == HEAP + "grow"]
     if not grows:
         return False, "run_gc never grows the heap"
+    def occupancy_ratio(sh):
+        """capacity coefficient / used coefficient of a comparison `used * A >= capacity * B` (either factor may be absent)"""
+        from fractions import Fraction
+        m = re.fullmatch(r"\((Ge|Gt) (?:\(Mul )?[A-Za-z0-9_:<>]*used_size\(a1\)(?: c:(\d+)\)\.0)? (?:\(Mul )?[A-Za-z0-9_:<>]*capacity\(a1\)(?: c:(\d+)\)\.0)?\)", sh)
+        if not m:
+            return None
+        a = int(m.group(2) or 1)
+        b = int(m.group(3) or 1)
+        return Fraction(b, a)
+    gate_ratios = [r for r in (occupancy_ratio(c) for c in gate_conds) if r is not None]
     agree = False
     for bb, t in grows:
         for g in shapes.guard_shapes(gc, bb, None, 5):
@@ -90,6 +100,10 @@ def _gate_leaves_false(facts):
                 continue
             body = norm(g[:-2])
             if body in gate_conds:
+                agree = True
+            # a growth test that is true at every occupancy the gate accepts (a lower threshold) settles it as well
+            r = occupancy_ratio(body)
+            if r is not None and gate_ratios and all(r <= g for g in gate_ratios):
                 agree = True
             m = re.match(r"([A-Za-z0-9_:<>]+)\(a1\)$", body)
             if m and any(short_path(x) == m.group(1) for x in gate_subs):
@@ -137,8 +151,9 @@ def _collect_and_hand_back(facts, fn, b, ones):
 def r13g(ctx, rep, rule="R13g"):
     facts = ctx["facts"]
     rep.rule(rule, "a collection settles the question it was run for: once past its gate, run_gc ends with the gate false — the test "
-             "that decides growth after the sweep is the gate's own occupancy test (the same comparison, or the same "
-             "sub-predicate), and every other quantity the gate reads is reset by the sweep. A gate that accepts an occupancy "
+             "that decides growth after the sweep is the gate's own occupancy test (the same comparison, the same "
+             "sub-predicate, or the same comparison at a lower threshold), and every other quantity the gate reads is reset by "
+             "the sweep. A gate that accepts an occupancy "
              "the growth test refuses (>= 75% against > 75%) collects again and again at that occupancy, and any caller that "
              "hands a slice back while a collection is due never gets out.")
     ok, why = _gate_leaves_false(facts)
@@ -1280,3 +1295,70 @@ def r12s(ctx, rep, rule="R12s"):
                  "ever mentioned by compiled code stays a root, with its slot, for the rest of the VM's life" % (
                      ", ".join(short_path(a) for a in sorted(set(adders))),
                      "reachable from run_gc" if removers else "anywhere"), [f.span])
+
+
+def r06h(ctx, rep, rule="R06h"):
+    """a collection that frees next to nothing is not repeated at once"""
+    from .. import shapes
+    from fractions import Fraction
+    facts = ctx["facts"]
+    rep.rule(rule, "collecting is amortised: the dispatch loop runs a collection whenever one is due (R12q), so what a collection leaves "
+             "behind decides when the next one comes. If the heap grows only at the occupancy that makes a collection due, a live "
+             "set just below it (74.9%% of the cells) is collected again after a handful of allocations, each collection marking "
+             "all of it: 20000 conses took 148 s. The occupancy at which run_gc grows the heap after the sweep is therefore "
+             "strictly below the occupancy at which its gate opens (used * A >= capacity * B with a smaller B / A).")
+    gc = need(rep, rule, facts, RUN_GC)
+    gate = sorted(_gate_fns(facts))
+    if gc is None or len(gate) != 1:
+        if gc is not None:
+            rep.anchor_lost(rule, "a single gate predicate in front of run_gc")
+        return
+    gf = facts.fns[gate[0]]
+    norm = lambda sh: re.sub(r"\ba1\.heap\b", "a1", sh)
+
+    def ratio(sh):
+        m = re.fullmatch(r"\((Ge|Gt) (?:\(Mul )?[A-Za-z0-9_:<>]*used_size\(a1\)(?: c:(\d+)\)\.0)? (?:\(Mul )?[A-Za-z0-9_:<>]*capacity\(a1\)(?: c:(\d+)\)\.0)?\)", sh)
+        return Fraction(int(m.group(3) or 1), int(m.group(2) or 1)) if m else None
+    conds = set()
+    for bb, b in enumerate(gf.blocks):
+        t = b["term"]
+        if t["k"] == "switch" and not b.get("cleanup"):
+            conds.add(norm(shapes.shape(gf, t["op"], 5)))
+    for bb, j, st in gf.stmts():
+        if st["rv"]["k"] == "bin" and st["rv"]["op"] in ("Ge", "Gt"):
+            conds.add(norm("(%s %s %s)" % (st["rv"]["op"], shapes.shape(gf, st["rv"]["a"], 4), shapes.shape(gf, st["rv"]["b"], 4))))
+    # sub-predicates of the gate (a `crowded()` helper)
+    for bb, t in gf.calls():
+        c = callee(t)
+        if c in facts.fns and c.startswith(HEAP):
+            h = facts.fns[c]
+            for b2, j2, st2 in h.stmts():
+                if st2["rv"]["k"] == "bin" and st2["rv"]["op"] in ("Ge", "Gt"):
+                    conds.add(norm("(%s %s %s)" % (st2["rv"]["op"], shapes.shape(h, st2["rv"]["a"], 4), shapes.shape(h, st2["rv"]["b"], 4))))
+    gate_r = [r for r in (ratio(c) for c in conds) if r is not None]
+    grow_r = []
+    for bb, t in gc.calls():
+        if callee(t) == HEAP + "grow":
+            for g in shapes.guard_shapes(gc, bb, None, 5):
+                if g.endswith("=T"):
+                    r = ratio(norm(g[:-2]))
+                    if r is not None:
+                        grow_r.append(r)
+                    m = re.match(r"([A-Za-z0-9_:<>]+)\(a1(?:\.heap)?\)$", g[:-2])
+                    if m:
+                        for c2, h in facts.fns.items():
+                            if short_path(c2) == m.group(1) and c2 != gate[0]:      # the gate itself dominates the whole collection
+                                for b2, j2, st2 in h.stmts():
+                                    if st2["rv"]["k"] == "bin" and st2["rv"]["op"] in ("Ge", "Gt"):
+                                        r2 = ratio(norm("(%s %s %s)" % (st2["rv"]["op"], shapes.shape(h, st2["rv"]["a"], 4), shapes.shape(h, st2["rv"]["b"], 4))))
+                                        if r2 is not None:
+                                            grow_r.append(r2)
+    key = rule + "|run_gc|growth-below-gate"
+    if not gate_r or not grow_r:
+        rep.anchor_lost(rule, "occupancy comparisons of the gate (%d) and of the growth decision (%d) in the form used * A >= capacity * B" % (len(gate_r), len(grow_r)))
+        return
+    ok = max(grow_r) < min(gate_r)
+    (rep.ok if ok else rep.fail)(
+        rule, key, "run_gc grows the heap from %s occupancy, the gate opens at %s" % (max(grow_r), min(gate_r)) if ok else
+        "run_gc grows the heap only from %s occupancy while a collection is due from %s: a live set just below that is collected "
+        "over and over, every few allocations, and each collection marks all of it" % (max(grow_r), min(gate_r)), [gc.span])
